@@ -134,6 +134,11 @@ def run(ctx, rep):
             n += 1
             seen = prog.reach_fns([g])
             rep.ob("FORWARD", "Kdf::%s reaches crypto_kdf_derive_from_key" % m, f.key in seen, "call-graph reachability", loc=g.loc())
+            # the whole id space: the object API takes the same 64-bit id as the classic function
+            idp_ = g.arg_local("subkey_id") or 2
+            ints_ = [g.locals[p_]["t"] for p_ in cm.params_of(g) if g.locals[p_]["t"] in ("u8", "u16", "u32", "u64", "usize", "u128", "i32", "i64")]
+            rep.ob("FORWARD", "Kdf::%s takes a 64-bit id" % m, ints_ == ["u64"],
+                   "integer parameter(s) of the object-API derive function: %s (libsodium's subkey id is a uint64_t)" % ints_, loc=g.loc())
             for c in g.calls():
                 if c.rpath.endswith("crypto_kdf_derive_from_key"):
                     selfp = 1
@@ -144,3 +149,5 @@ def run(ctx, rep):
                            and selfp in g.backward_slice(operand_locals(c.args[3])),
                            "subkey_id -> arg1, self.context -> arg2, self.main_key -> arg3", loc=c.loc())
     rep.floor("object-API derive functions", n, 1)
+    _nw = cm.read_after_wipe(rep, prog, ("classic::crypto_kdf", "kdf::"))
+    rep.note("WIPE-ORDER: %d wipe(s) of local buffers checked in the key-derivation code" % _nw)
